@@ -151,6 +151,8 @@ var (
 	flagOnly     = flag.String("only", "", "internal: family/index")
 	flagDeadline = flag.Duration("deadline", 0, "soft deadline for the whole run (0 = tier default)")
 	flagVerbose  = flag.Bool("v", false, "verbose")
+	flagFams     = flag.String("families", "", "run only families whose name starts with one of these comma-separated prefixes (debugging; evidence then covers only those)")
+	flagList     = flag.String("list", "", "print 'index<TAB>description' of every case of a family and exit")
 )
 
 // Tier returns the tier of this run.
@@ -214,7 +216,29 @@ func Main(spec Spec) {
 		caseTimeout = spec.CaseTimeout
 	}
 	fams := spec.Families(*flagTier)
+	if *flagFams != "" {
+		var keep []Family
+		for _, f := range fams {
+			for _, pre := range strings.Split(*flagFams, ",") {
+				if strings.HasPrefix(f.Name, pre) {
+					keep = append(keep, f)
+					break
+				}
+			}
+		}
+		fams = keep
+	}
 	switch {
+	case *flagList != "":
+		f := findFam(fams, *flagList)
+		for i := int64(0); i < f.N; i++ {
+			d := interface{}("")
+			if f.Describe != nil {
+				d = f.Describe(i)
+			}
+			fmt.Printf("%d\t%v\n", i, d)
+		}
+		os.Exit(0)
 	case *flagOnly != "":
 		onlyMain(spec, fams)
 	case *flagWorker != "":
@@ -647,7 +671,11 @@ func indent(s string) string {
 }
 
 func baseArgs() []string {
-	return []string{"-tier", *flagTier, "-known", *flagKnown}
+	a := []string{"-tier", *flagTier, "-known", *flagKnown}
+	if *flagFams != "" {
+		a = append(a, "-families", *flagFams)
+	}
+	return a
 }
 
 // runShard runs shard s of family f, restarting after worker deaths.
